@@ -152,7 +152,12 @@ pub fn finish(ctx: &Ctx, prop: &str, mut rep: Report, selfcheck: &[String]) -> i
         }
     }
 
-    // completeness of the observation
+    // completeness of the observation (the thinned environment child is not held to it: its parent is)
+    let thinned = std::env::var("VCHECK_STAGE_CHILD").map(|v| v == "environment").unwrap_or(false);
+    if thinned {
+        rep.min_evaluations = 1;
+        rep.required_sets.clear();
+    }
     if rep.stats.evaluations < rep.min_evaluations {
         rep.stats.inconclusive(format!("only {} executions observed, {} required", rep.stats.evaluations, rep.min_evaluations));
     }
